@@ -164,9 +164,9 @@ class Exec(ExprMixin, CallMixin):
         if c.decreases is not None:
             self.measure0 = self.spec_value(c.decreases, st).z
         body = self.fn.body
-        if c.start_after_loop is not None or c.stop_after_loop is not None:
+        if c.start_after_loop is not None or c.stop_after_loop is not None or c.stop_before_loop is not None:
             out = self.run_tile(st)
-            if c.stop_after_loop is not None:
+            if c.stop_after_loop is not None or c.stop_before_loop is not None:
                 self.finish_tile(out)
                 return
         elif c.start_loop is not None:
@@ -207,6 +207,8 @@ class Exec(ExprMixin, CallMixin):
         hi = len(body)
         if c.stop_after_loop is not None:
             hi = top_index(c.stop_after_loop) + 1
+        if c.stop_before_loop is not None:
+            hi = top_index(c.stop_before_loop)
         return self.block(body[lo:hi], st)
 
     def finish_tile(self, out):
